@@ -281,10 +281,20 @@ def check_plumbing(run, A):
         if not comp_calls:
             raise AnalysisError(f'{ms.qual}: component update call not found')
         for cf in comp_calls:
-            s = cf.args.get('saliency')
             f = callee_func(cf)
+            # the weight parameter of the component update: `saliency`, or (campaign 13: private keyword renamed at the helper and its call sites) the one
+            # parameter of `_fit` that is neither the observation nor the quadratic form
+            wp = 'saliency'
+            if wp not in f.params:
+                cand = [p_ for p_ in f.params if p_ not in ('self', 'cls', 'y', 'x', 'observation', 'quadratic_form')]
+                wp = cand[0] if len(cand) == 1 else None
+            s = cf.args.get(wp) if wp else None
+            if s is None:
+                run.unresolved('R-DEP', f'{short}: {f.cls.name}._fit is weighted by affiliation x saliency', cf.ctx.fn.loc(cf.term.node),
+                               f'which argument of {f.cls.name}._fit carries the observation weights is not recognised (parameters {list(f.params)})')
+                continue
             ok = s is not None and ('param', 'affiliation') in s.deps and ('param', 'saliency') in s.deps
-            st = call_arg(cf.term, None, 'saliency')
+            st = call_arg(cf.term, None, wp)
             if st is not None:
                 dg = factor_degree(st, 'saliency')
                 run.check(dg == 1, 'R-DEP', f'{short}: saliency enters the {f.cls.name} update exactly once', cf.ctx.fn.loc(cf.term.node), '',
